@@ -1,9 +1,9 @@
 (* The single entry point of the executable model: request text -> reply text. *)
 From BSE Require Import Model.Val Model.Wire.
-From BSE Require Import Ops.OpsC20 Ops.OpsManip Ops.OpsCompose Ops.OpsMemo Ops.OpsValidator Ops.OpsCompare Ops.OpsText Ops.OpsRefs Ops.OpsCli Ops.OpsAugment Ops.OpsAux Ops.OpsAddBasis Ops.OpsBundle Ops.OpsMatrix Ops.OpsFormats.
+From BSE Require Import Ops.OpsC20 Ops.OpsManip Ops.OpsCompose Ops.OpsMemo Ops.OpsValidator Ops.OpsCompare Ops.OpsText Ops.OpsRefs Ops.OpsCli Ops.OpsAugment Ops.OpsAux Ops.OpsAddBasis Ops.OpsBundle Ops.OpsMatrix Ops.OpsFormats Ops.OpsFormats2.
 
 Definition all_ops : list (string -> list val -> option (res val)) :=
-  [ ops_c20; ops_manip; ops_pipeline; ops_compose; ops_memo; ops_validator; ops_compare; ops_text; ops_refs; ops_cli; ops_augment; ops_aux; ops_addbasis; ops_bundle; ops_matrix; ops_formats ].
+  [ ops_c20; ops_manip; ops_pipeline; ops_compose; ops_memo; ops_validator; ops_compare; ops_text; ops_refs; ops_cli; ops_augment; ops_aux; ops_addbasis; ops_bundle; ops_matrix; ops_formats; ops_formats2 ].
 
 Fixpoint dispatch_in (tabs : list (string -> list val -> option (res val))) (op : string) (args : list val) : val :=
   match tabs with
